@@ -51,7 +51,11 @@ def directed_module():
                        "body": [["block", "i32"], ["local.get", 0], ["i32.const", b32(-129)], ["i32.add"], ["local.get", 0], ["br_table", [0, 0], 0], ["end"],
                                 ["i32.const", b32(300)], ["i32.load16_s", 1, 2], ["i32.add"], ["call", 0], ["global.get", 0], ["i32.add"],
                                 ["i32.const", b32(2)], ["call_indirect", 0, 0], ["end"]]},
-                      {"type": 1, "locals": [], "body": [["i32.const", b32(308)], ["i64.const", b64(-0x123456789)], ["i64.store", 3, 0], ["end"]]},
+                      {"type": 1, "locals": [], "body": [["i32.const", b32(308)], ["i64.const", b64(-0x123456789)], ["i64.store", 3, 0],
+                                                         # instructions behind the 0xFC and 0xFE prefixes (their number is a LEB128 field too)
+                                                         ["i32.const", b32(320)], ["i32.const", b32(5)], ["i32.atomic.rmw.add", 2, 0], ["drop"], ["atomic.fence"],
+                                                         ["i32.const", b32(330)], ["i32.const", b32(0xAB)], ["i32.const", b32(3)], ["memory.fill"],
+                                                         ["i32.const", b32(340)], ["i32.const", b32(330)], ["i32.const", b32(2)], ["memory.copy"], ["end"]]},
                       {"type": 2, "locals": [], "body": [["local.get", 0], ["i64.const", b64(1 << 62)], ["i64.add"], ["local.get", 1], ["f64.const", b64(0x7FF8000000000001)],
                                                          ["f64.add"], ["i64.trunc_sat_f64_s"], ["i64.add"], ["end"]]},
                       {"type": 0, "locals": [], "body": [["local.get", 0], ["i32.const", b32(1)], ["i32.shl"], ["end"]]},
@@ -71,6 +75,28 @@ def directed_module():
             "data": [{"mode": "active", "offset": ["i32.const", b32(300)], "bytes": [1, 0x80, 0xFF, 0x7F]}, {"mode": "passive", "bytes": [7, 7]},
                      {"mode": "active", "offset": ["global.get", 0], "bytes": [3]}],
             "datacount": True}
+
+
+def directed_imports():
+    """Memory, table and a global all imported (no defined memory or table): segments go to the embedder's objects."""
+    return {"types": [{"p": ["i32"], "r": ["i32"]}, {"p": [], "r": ["i32"]}],
+            "imports": [{"mod": "env", "name": "mem", "kind": "memory", "min": 1, "max": 2},
+                        {"mod": "env", "name": "tab", "kind": "table", "min": 4, "max": 8},
+                        {"mod": "env", "name": "g", "kind": "global", "t": "i32", "mut": False}],
+            "funcs": [{"type": 0, "locals": [], "body": [["local.get", 0], ["i32.load8_u", 0, 0], ["end"]]},
+                      {"type": 1, "locals": [], "body": [["i32.const", b32(41)], ["end"]]},
+                      {"type": 1, "locals": [], "body": [["i32.const", b32(42)], ["end"]]},
+                      {"type": 0, "locals": [], "body": [["local.get", 0], ["call_indirect", 1, 0], ["end"]]}],
+            "exports": [{"name": "peek", "kind": "func", "idx": 0}, {"name": "icall", "kind": "func", "idx": 3}],
+            "elems": [{"offset": ["i32.const", b32(1)], "funcs": [1, 2]}, {"offset": ["global.get", 0], "funcs": [2]}],
+            "data": [{"mode": "active", "offset": ["i32.const", b32(10)], "bytes": [9, 8, 7]}, {"mode": "active", "offset": ["global.get", 0], "bytes": [5]},
+                     {"mode": "active", "offset": ["i32.const", b32(11)], "bytes": [0]}]}
+
+
+IMPSCRIPT = [{"op": "hostmem", "pages": 1, "max": 2, "shared": False}, {"op": "hosttable", "size": 6}, {"op": "hostglobal", "t": "i32", "b": b32(3)},
+             {"op": "instantiate", "binds": {"mem": 1, "table": 1, "globals": [1]}}] + \
+            [{"op": "call", "inst": 1, "export": "peek", "args": [{"t": "i32", "b": b32(a)}]} for a in (3, 10, 11, 12)] + \
+            [{"op": "call", "inst": 1, "export": "icall", "args": [{"t": "i32", "b": b32(a)}]} for a in (1, 2, 3)]
 
 
 def choice_vectors(rng, m, n):
@@ -153,7 +179,7 @@ def main():
                         v.deviation("leb:s%d" % n, {"bytes": x["bytes"], "spec": x["sv"], "code_value": vs, "code_count": cs})
         # 2. equivalent encodings of whole modules
         w2c2 = common.build_w2c2(os.path.join(wd, "bin"))
-        mods = [("directed", directed_module())]
+        mods = [("directed", directed_module()), ("dimports", machine.norm_module(directed_imports()), IMPSCRIPT)]
         for it in wasmgen.programs("mixed", 16 if tier == "quick" else 200, SEED, args_per_prog=3)[:6 if tier == "quick" else 80]:
             mods.append((it["id"], it["module"], it["script"]))
         for it in wasmgen.programs("calls", 12 if tier == "quick" else 150, SEED, args_per_prog=3)[:4 if tier == "quick" else 60]:
@@ -171,7 +197,7 @@ def main():
             for ci, c in enumerate(choice_vectors(rng, em, 6 if tier == "quick" else 60)):
                 data = wasm_encode.encode(em, c)
                 jobs.append((name, ci, c, canon, data))
-                if name == "directed" or ci < 2 or (c.get("explicitElse") and ci < 12):
+                if name in ("directed", "dimports") or ci < 2 or (c.get("explicitElse") and ci < 12):
                     items.append({"id": "%s_c%d" % (name, ci), "module": m, "script": script, "wasm": data})
         # sparse modules: most sections absent; every absent section may instead be present with a zero count, one at a
         # time, in pairs, and in random subsets (function and code sections independently: both have zero entries)
